@@ -83,7 +83,7 @@ def run_witnesses(pid, mod, root, chk):
         return res
     baseline = {f.key for f in chk.findings}
     jobs = [(pid, root, i, baseline) for i in range(len(ws))]
-    nproc = min(16, len(jobs), os.cpu_count() or 1)
+    nproc = min(int(os.environ.get("VERIF_JOBS", "16")), len(jobs), os.cpu_count() or 1)
     if nproc > 1:
         ctx = multiprocessing.get_context("fork")
         with ctx.Pool(nproc) as pool:
